@@ -9,7 +9,7 @@ import sqlite3
 import tempfile
 import time
 
-from .core import DEFAULT_SETTINGS, ENOVAL, Cache, Disk, Timeout
+from .core import DBNAME, DEFAULT_SETTINGS, ENOVAL, Cache, Disk, Timeout
 from .persistent import Deque, Index
 
 
@@ -35,20 +35,42 @@ class FanoutCache:
         directory = op.expandvars(directory)
 
         default_size_limit = DEFAULT_SETTINGS['size_limit']
-        size_limit = settings.pop('size_limit', default_size_limit) / shards
+        size_limit = settings.pop('size_limit', None)
+
+        def stores_size_limit(path):
+            db_path = op.join(path, DBNAME)
+            if not op.exists(db_path):
+                return False
+            con = sqlite3.connect(db_path, timeout=timeout)
+            try:
+                select = 'SELECT value FROM Settings WHERE key = ?'
+                return bool(con.execute(select, ('size_limit',)).fetchall())
+            except sqlite3.OperationalError as error:
+                # No table yet: the first open of the shard was interrupted.
+                return 'no such table' not in str(error)
+            finally:
+                con.close()
+
+        def shard_settings(path):
+            if size_limit is not None:
+                return dict(settings, size_limit=size_limit / shards)
+            if stores_size_limit(path):
+                # Existing shard: keep the size limit stored in its settings.
+                return settings
+            return dict(settings, size_limit=default_size_limit / shards)
 
         self._count = shards
         self._directory = directory
         self._disk = disk
+        paths = [op.join(directory, '%03d' % num) for num in range(shards)]
         self._shards = tuple(
             Cache(
-                directory=op.join(directory, '%03d' % num),
+                directory=path,
                 timeout=timeout,
                 disk=disk,
-                size_limit=size_limit,
-                **settings,
+                **shard_settings(path),
             )
-            for num in range(shards)
+            for path in paths
         )
         self._hash = self._shards[0].disk.hash
         self._caches = {}
